@@ -214,6 +214,82 @@ func (i *interpreter) matchTerm(pattern string, s value) *smt.Term {
 	return matched
 }
 
+// fixedShape: for a pattern of the form ^...$ whose pieces all have a fixed width, the [start,end) offsets of
+// the whole match and of every capture group, and the total width.
+func fixedShape(pattern string) (offs [][2]int, total int, ok bool) {
+	re, err := syntax.Parse(pattern, syntax.Perl)
+	if err != nil {
+		return nil, 0, false
+	}
+	ncap := re.MaxCap()
+	offs = make([][2]int, ncap+1)
+	if re.Op != syntax.OpConcat || len(re.Sub) < 2 || re.Sub[0].Op != syntax.OpBeginText || re.Sub[len(re.Sub)-1].Op != syntax.OpEndText {
+		return nil, 0, false
+	}
+	good := true
+	var walk func(n *syntax.Regexp, pos int, insideRepeat bool) int
+	walk = func(n *syntax.Regexp, pos int, insideRepeat bool) int {
+		switch n.Op {
+		case syntax.OpEmptyMatch, syntax.OpBeginText, syntax.OpEndText:
+			return 0
+		case syntax.OpLiteral:
+			if n.Flags&syntax.FoldCase != 0 {
+				for _, r := range n.Rune {
+					if r > 0x7f {
+						good = false
+					}
+				}
+			}
+			for _, r := range n.Rune {
+				if r > 0x7f {
+					good = false
+				}
+			}
+			return len(n.Rune)
+		case syntax.OpCharClass, syntax.OpAnyCharNotNL, syntax.OpAnyChar:
+			return 1
+		case syntax.OpCapture:
+			if insideRepeat {
+				good = false
+				return 0
+			}
+			w := walk(n.Sub[0], pos, false)
+			offs[n.Cap] = [2]int{pos, pos + w}
+			return w
+		case syntax.OpConcat:
+			w := 0
+			for _, sub := range n.Sub {
+				w += walk(sub, pos+w, insideRepeat)
+			}
+			return w
+		case syntax.OpRepeat:
+			if n.Min != n.Max {
+				good = false
+				return 0
+			}
+			return n.Min * walk(n.Sub[0], pos, true)
+		case syntax.OpAlternate:
+			w := -1
+			for _, sub := range n.Sub {
+				sw := walk(sub, pos, true)
+				if w >= 0 && sw != w {
+					good = false
+				}
+				w = sw
+			}
+			return w
+		}
+		good = false
+		return 0
+	}
+	total = walk(re, 0, false)
+	if !good {
+		return nil, 0, false
+	}
+	offs[0] = [2]int{0, total}
+	return offs, total, true
+}
+
 func matchPC(p *syntax.Prog) int {
 	for k := range p.Inst {
 		if p.Inst[k].Op == syntax.InstMatch {
@@ -304,11 +380,36 @@ func init() {
 		}
 		return regexp.MustCompile(pat).ReplaceAllString(src, repl)
 	}
+	intrinsics["(*regexp.Regexp).SubexpNames"] = func(fr *frame, args []value) value {
+		names := regexp.MustCompile(regexpPatternAt(fr, args[0])).SubexpNames()
+		out := make([]value, len(names))
+		for k := range names {
+			out[k] = names[k]
+		}
+		return out
+	}
 	intrinsics["(*regexp.Regexp).FindStringSubmatch"] = func(fr *frame, args []value) value {
 		pat := regexpPatternAt(fr, args[0])
 		src, ok := args[1].(string)
 		if !ok {
-			unsup("regexp FindStringSubmatch on a symbolic string")
+			// symbolic subject: supported for anchored patterns in which every piece has a fixed width, so that
+			// the group boundaries do not depend on the bytes
+			offs, total, fixed := fixedShape(pat)
+			if !fixed {
+				unsup("regexp FindStringSubmatch on a symbolic string with a pattern that is not anchored and fixed-width: %s", pat)
+			}
+			bs := strBytes(args[1])
+			if len(bs) != total {
+				return []value(nil)
+			}
+			if !fr.i.branch(fr.i.matchTerm(pat, args[1])) {
+				return []value(nil)
+			}
+			out := make([]value, len(offs))
+			for k, o := range offs {
+				out[k] = normStr(append([]value(nil), bs[o[0]:o[1]]...))
+			}
+			return out
 		}
 		m := regexp.MustCompile(pat).FindStringSubmatch(src)
 		if m == nil {
